@@ -91,12 +91,25 @@ func hMkHeap(minN, maxN, kinds int) *hHeap {
 	h.add(b, bm)
 	n := nondetIntRange(minN, maxN)
 	spare := nondetIntRange(0, 1)
-	a := hListWithSpare(n, spare)
+	var a *list
 	am := make([]mval, n)
-	for i := 0; i < n; i++ {
-		v, m := h.someValue(kinds)
-		a.Replace(i, v)
-		am[i] = m
+	if n >= 2 && nondetIntRange(0, 1) == 1 {
+		// NewListOf pre-state: every slot holds the same value (and, in the implementation, possibly one shared wrapper)
+		v := nondetInt()
+		a = NewListOf(v, n+spare).(*list)
+		for i := 0; i < spare; i++ {
+			a.Pop()
+		}
+		for i := 0; i < n; i++ {
+			am[i] = mval{kind: TypeInt, i: v}
+		}
+	} else {
+		a = hListWithSpare(n, spare)
+		for i := 0; i < n; i++ {
+			v, m := h.someValue(kinds)
+			a.Replace(i, v)
+			am[i] = m
+		}
 	}
 	h.lists = append([]List{a}, h.lists...)
 	h.models = append([][]mval{am}, h.models...)
